@@ -133,7 +133,7 @@ func c04Chains(c *core.Ctx, hidx int, h *hist.History, l *hist.Layout, exp []his
 }
 
 func checkC04(c *core.Ctx) {
-	c.SetRule("per small generated history (3..6 transactions, half with a rotation): every packet index of the first attempt x 17 packet fault kinds (incl. a well-formed rows event whose before image, after image, only image cannot be decoded), every transaction ordinal x {cancel in handler, handler error}, mapper error / column-count mismatch on its first 4 calls, each x pacing {far-ahead, lock-step}; 8 kinds of attempts failing before a reader exists; transport read errors at random byte offsets; 0..2 further seeded failed attempts; then a clean attempt to EOF, all on ONE streamer; distinct by (history bytes, chain); non-trivial iff the faulting attempt was reached and the chain has >=2 attempts")
+	c.SetRule("per small generated history (3..6 transactions, half with a rotation): every packet index of the first attempt x 23 packet fault kinds (incl. a well-formed rows event whose before image, after image, only image cannot be decoded, and header-only TABLE_MAP / rows / QUERY / FORMAT_DESCRIPTION / ROTATE events that pass the validity test), every transaction ordinal x {cancel in handler, handler error}, mapper error / column-count mismatch on its first 4 calls, each x pacing {far-ahead, lock-step}; 8 kinds of attempts failing before a reader exists; transport read errors at random byte offsets; 0..2 further seeded failed attempts; then a clean attempt to EOF, all on ONE streamer; distinct by (history bytes, chain); non-trivial iff the faulting attempt was reached and the chain has >=2 attempts")
 	c.Assume("a transaction counts as accepted iff the handler returned nil for it")
 	c.Assume("simulated master rejects a dump position that is not an event boundary (bad-resume)")
 	nh := c.N(8, 200)
